@@ -661,7 +661,22 @@ class Explorer:
         return paths
 
 
+_FV_CACHE = {}
+
+
 def _free_vars(f):
+    i0 = f.get_id()
+    hit = _FV_CACHE.get(i0)
+    if hit is not None and hit[0].eq(f):
+        return hit[1]
+    out = _free_vars_uncached(f)
+    if len(_FV_CACHE) > 200000:
+        _FV_CACHE.clear()
+    _FV_CACHE[i0] = (f, out)     # the term is kept alive, so its id stays unique
+    return out
+
+
+def _free_vars_uncached(f):
     out = set()
     seen = set()
     todo = [f]
@@ -977,8 +992,14 @@ class SymNumpy:
     def fmod(self, x, y):
         if not has_sym(x):
             return _np.fmod(x, y)
-        # C fmod: sign of dividend; callers use it on positive values (x + 7.0)
-        return _map(lambda v: (v - y * Sym(z3.ToReal(z3.ToInt((v / y).real()))) if isinstance(v, Sym) else math.fmod(v, y)), x)
+        # C fmod: the quotient is truncated towards zero (result has the sign of the dividend)
+        def one(v):
+            if not isinstance(v, Sym):
+                return math.fmod(v, y)
+            q = (v / y).real()
+            tr = z3.If(q >= 0, z3.ToReal(z3.ToInt(q)), -z3.ToReal(z3.ToInt(-q)))
+            return v - y * Sym(tr)
+        return _map(one, x)
 
     def real(self, x):
         if hasattr(x, "re") and hasattr(x, "im"):
